@@ -243,6 +243,7 @@ func orders(d Doc, full bool) []Order {
 	for _, n := range nAt {
 		allRev.DeployAt = append(allRev.DeployAt, rev(n))
 	}
+	allRev.RevAttrs = true
 
 	var out []Order
 	// (1) one map at a time, every permutation (24 at most), all other maps in declaration order
@@ -281,6 +282,28 @@ func orders(d Doc, full bool) []Order {
 			out = append(out, Order{SvcFields: []int{r % 5, (r + 1) % 5, (r + 2) % 5, (r + 3) % 5, (r + 4) % 5}})
 		}
 	}
+	// attribute mappings (storage attributes of compute profiles, placement attributes): every
+	// permutation of the mappings of each occurring size, and all of them reversed
+	stoSizes, placeSizes := map[int]bool{}, map[int]bool{}
+	for _, c := range d.Computes {
+		stoSizes[len(c.StoAttrs)] = true
+	}
+	for _, p := range d.Placements {
+		placeSizes[len(p.Attrs)] = true
+	}
+	for n := 2; n <= 4; n++ {
+		if stoSizes[n] {
+			for _, p := range imc.Perms(n, 24)[1:] {
+				out = append(out, Order{StoAttrs: p})
+			}
+		}
+		if placeSizes[n] {
+			for _, p := range imc.Perms(n, 24)[1:] {
+				out = append(out, Order{PlaceAttrs: p})
+			}
+		}
+	}
+	out = append(out, Order{RevAttrs: true})
 	// (2) every permutation of the top-level map combined with all other maps reversed
 	for _, p := range imc.Perms(4, 24) {
 		o := allRev
@@ -327,7 +350,8 @@ func orders(d Doc, full bool) []Order {
 
 const permRule = "key orders per document: (1) each of the maps {top-level, services, profiles, profiles.compute, profiles.placement, deployment, " +
 	"deployment.<svc>} in every permutation (first 24 in lexicographic order if more) with all other maps in declaration order, and the five keys " +
-	"of every service (image, command, args, env, expose) in their 5 rotations (thorough: additionally the first 24 permutations in lexicographic order); " +
+	"of every service (image, command, args, env, expose) in their 5 rotations, every storage.attributes mapping of a compute profile and every attributes mapping of a placement " +
+	"(0-3 keys) in all permutations and all reversed (thorough: additionally the first 24 permutations in lexicographic order); " +
 	"(2) every permutation of the top-level map with all other maps reversed; thorough adds (3) the full product of all permutations of the services, " +
 	"profiles, compute, placement, deployment and deployment.<svc> maps (top-level map in declaration order); renderings with identical text are parsed once"
 
